@@ -588,6 +588,41 @@ def main():
     finally:
         shutil.rmtree(scratch, ignore_errors=True)
 
+    # ---------------- the time scheme changes between the save and the restore: what was stored with an iteration comes back all the same ----------------
+    for kind_ in ("elastic", "hyperelastic"):
+        ident_ = dict(sim=kind_, history="two dynamic steps saved, Solver_Set_Elliptic_Algorithm(), Set_Iter(0), Set_Iter(1)")
+        res.case(("scheme-changed-before-restore", kind_))
+        res.count("scheme-changed-before-restore")
+        try:
+            msh_ = M.mesh_2d("QUAD4", 2.0, 1.0, 0.5)
+            if kind_ == "elastic":
+                sd_ = Simulations.Elastic(msh_, Models.Elastic.Isotropic(2, E=10.0, v=0.25, planeStress=True, thickness=1.0))
+            else:
+                sd_ = Simulations.HyperElastic(msh_, Models.HyperElastic.NeoHookean(2, 2.0))
+            sd_.rho = 2.0
+            sd_.Solver_Set_Hyperbolic_Algorithm(dt=0.05)
+            kept_ = []
+            for k_ in range(2):
+                sd_.Bc_Init()
+                sd_.add_dirichlet(msh_.Nodes_Conditions(lambda x, y, z: x == 0), [0.0, 0.0], ["x", "y"])
+                sd_.add_surfLoad(msh_.Nodes_Conditions(lambda x, y, z: x == 2.0), [0.01 * (k_ + 1)], ["x"])
+                sd_.Solve()
+                sd_.Save_Iter()
+                kept_.append({n_: np.asarray(getattr(sd_, n_), dtype=float).copy() for n_ in ("displacement", "speed", "accel")})
+            if not (max(np.abs(kept_[0]["speed"]).max(), np.abs(kept_[0]["accel"]).max()) > 0):
+                res.disagree("vacuous", dict(ident_, note="the dynamic steps produced no velocity"))
+            sd_.Solver_Set_Elliptic_Algorithm()
+            for i_ in (0, 1):
+                sd_.Set_Iter(i_)
+                for n_ in ("displacement", "speed", "accel"):
+                    got_ = np.asarray(getattr(sd_, n_), dtype=float)     # the state of the simulation (HyperElastic only advertises speed / accel as results under a time scheme)
+                    if got_.shape != kept_[i_][n_].shape or not (np.abs(got_ - kept_[i_][n_]).max() <= 1e-12 * (1 + np.abs(kept_[i_][n_]).max())):
+                        res.fail(f"restore after a change of time scheme sim={kind_} field={n_}",
+                                 f"Set_Iter({i_}) after Solver_Set_Elliptic_Algorithm(): {n_} differs from the value stored with the iteration by {np.abs(got_ - kept_[i_][n_]).max() if got_.shape == kept_[i_][n_].shape else 'shape'} "
+                                 f"(stored max {np.abs(kept_[i_][n_]).max():.3e})", ident_)
+        except Exception as ex:  # noqa: BLE001
+            res.fail(f"restore after a change of time scheme raises sim={kind_}", f"{type(ex).__name__}: {str(ex)[:150]}", ident_)
+
     answers = driver.ask(lines)
     if answers is None:
         res.disagree("driver", "model driver does not run: " + getattr(driver, "error", "")[:400])
